@@ -634,6 +634,20 @@ impl WorldD {
                 if p.src_channel != ch.1 || p.src_port != THEIR_PORT || p.dest_port != OUR_PORT {
                     return;
                 }
+                if !self.cfg.malicious {
+                    // an honest remote chain only sends back vouchers it actually holds
+                    let pk: Option<cw20_ics20::ibc::Ics20Packet> = cosmwasm_std::from_json(&p.data).ok();
+                    let okk = pk
+                        .map(|k| {
+                            let parts: Vec<&str> = k.denom.splitn(3, '/').collect();
+                            parts.len() == 3
+                                && self.remote_vouchers.get(&(ch.0.clone(), parts[2].to_string())).cloned().unwrap_or(0) >= k.amount.u128()
+                        })
+                        .unwrap_or(false);
+                    if !okk {
+                        return;
+                    }
+                }
                 let r = self.chain.sudo("ics20", &serde_json::to_value(msg).unwrap(), fault.clone());
                 let evs = self.chain.events(&r);
                 self.check_frames(&evs, &r, Some(("receive", &ch.0)), out);
